@@ -361,3 +361,48 @@ Print Assumptions C03_total_scalar_translated.
 Print Assumptions C03_total_rawRead_translated.
 Print Assumptions C03_rawRead_errors_translated.
 Print Assumptions C03_readString_negative_translated.
+
+(* ============================================================================================== *)
+(* TRANSLATION TIE, phase 4: the continuations.  tools/gotrans/c03.go now generates the WHOLE of Decoder.unmarshal
+   for an interface{} destination (gen_any) and for typed scalar / slice destinations (gen_ty), the struct / map /
+   slice-of-struct / array pieces of the TagCompound and TagList cases (the gen_st_ definitions) and dynbt's Value.unmarshal
+   (gen_dyn) statement by statement: every case body, the destination-kind switches, the element loops with their
+   bounds, the array-length tests, the compound loops with their TagEnd test, the field lookup order, the
+   unknown-field skip.  The model's decoders ARE these generated definitions (equalities proved by conversion). *)
+Theorem C03_unmarshal_translated : gen_any = dany /\ gen_ty = dty.
+Proof. exact (conj unmarshal_any_tie unmarshal_ty_tie). Qed.
+Theorem C03_dynbt_translated :
+  gen_dyn = ddyn /\ gen_dyn_readString = rd_string /\ gen_dyn_readTag = rd_tag_dyn /\ dynbt_maxNestingDepth = nbt_maxNestingDepth.
+Proof. destruct dynbt_readers_tie as [H1 H2]. exact (conj dynbt_unmarshal_tie (conj H1 (conj H2 dynbt_depth_const))). Qed.
+Theorem C03_struct_translated : forall f dep,
+  (forall fs cur, dst (S f) dep (SStruct fs) cur idCompound = gen_st_struct dst f dep fs cur) /\
+  (forall cur, dst (S f) dep SMap cur idCompound = gen_st_map f dep cur) /\
+  (forall t cur, (forall e, t <> SB e) -> dst (S f) dep (SList t) cur idList = gen_st_list dst f dep t) /\
+  (forall n t cur, dst (S f) dep (SArr n t) cur idList =
+     gen_st_array f dep t (match cur with YArr l => l | _ => repeat (zero_ty t) (N.to_nat n) end)).
+Proof.
+  intros f dep. split; [intros; apply dst_struct_tie|]. split; [intros; apply dst_map_tie|].
+  split; [intros; now apply dst_list_tie|intros; apply dst_array_tie].
+Qed.
+(* indirect() (pointer allocation, the Unmarshaler test BEFORE the TextUnmarshaler test), the statements of unmarshal
+   before `switch tagType`, and the whole TagCompound case are the recorded ones *)
+Theorem C03_skeletons_recorded_4 :
+  C03gen.skel_indirect = C03_expected.skel_indirect /\ C03gen.skel_unmarshal_head = C03_expected.skel_unmarshal_head /\
+  C03gen.skel_unmarshal_TagCompound = C03_expected.skel_unmarshal_TagCompound.
+Proof. exact (conj skel_indirect_ok (conj skel_unmarshal_head_ok skel_unmarshal_TagCompound_ok)). Qed.
+
+(* THE HEADLINE TOTALITY THEOREM over the generated decoder: every input, both formats, every destination type *)
+Theorem C03_total_translated : forall f fuel s, (length s + 1 < fuel)%nat ->
+  prog s (run_flat (Decode f (gen_any fuel max_open)) s) /\
+  (forall t, prog s (run_flat (Decode f (gen_ty fuel max_open t)) s)) /\
+  prog s (run_flat (Decode f (gen_dyn fuel max_open)) s) /\
+  (forall dep id, prog s (run_flat (gen_rawRead fuel dep id) s)) /\
+  (forall dep fs cur, (length s + 1 + sdepth (SStruct fs) < fuel)%nat ->
+     prog s (run_flat (gen_st_struct dst (pred fuel) dep fs cur) s) /\ prog s (run_flat (gen_st_map (pred fuel) dep cur) s)).
+Proof. exact decoder_total_translated. Qed.
+
+Print Assumptions C03_unmarshal_translated.
+Print Assumptions C03_dynbt_translated.
+Print Assumptions C03_struct_translated.
+Print Assumptions C03_skeletons_recorded_4.
+Print Assumptions C03_total_translated.
